@@ -1348,6 +1348,63 @@ fn buffer_full_backpressure_delivers_each_message_once_in_order() {
     report(name, "C01,C09", "backlogs 150,199,200,201,450 x QoS 0/1 x one/two filters, subscriber reads only afterwards", cases, fail);
 }
 
+/// C17: the same back-pressure through a shared group: nothing forwarded twice, nothing lost, per-member order
+// @native props=C17 tier=quick fn=Router::{consume,forward_device_data}(shared group, BufferFull path)+SharedGroup
+#[test]
+fn shared_group_buffer_full_backpressure_forwards_each_message_once() {
+    let name = "rumqttd::Router#shared_group_buffer_full_backpressure_exactly_once";
+    let mut cases = 0u64;
+    let mut fail: Option<String> = None;
+    'outer: for strategy in [Strategy::RoundRobin, Strategy::Sticky, Strategy::Random] {
+        for members in 1..=2usize {
+            for backlog in [150usize, 199, 200, 201, 250, 450] {
+                cases += 1;
+                let desc = format!("strategy {:?}, {} member(s) of $share/g/f/# (QoS 0) not reading while {} messages are published, then they read", strategy, members, backlog);
+                let mut r = Router::new(0, cfg(1024 * 1024, 10, strategy.clone()));
+                let p = connect(&mut r, "p", true).unwrap();
+                let ms: Vec<Client> = (0..members).map(|i| connect(&mut r, &format!("m{}", i), true).unwrap()).collect();
+                for m in &ms {
+                    send(&mut r, m, vec![subscribe(1, &[("$share/g/f/#", 0)])]);
+                    let _ = drain(&mut r, m);
+                }
+                let pubs: Vec<Packet> = (0..backlog).map(|i| publish("f/x", 0, 0, &format!("{}", i), false)).collect();
+                for chunk in pubs.chunks(50) {
+                    send(&mut r, &p, chunk.to_vec());
+                }
+                let mut seen = vec![0usize; backlog];
+                let mut per_member: Vec<Vec<usize>> = vec![vec![]; members];
+                for _ in 0..40 {
+                    let mut any = false;
+                    for (i, m) in ms.iter().enumerate() {
+                        for g in receive_all(&mut r, m) {
+                            let k: usize = g.1.parse().unwrap();
+                            seen[k] += 1;
+                            per_member[i].push(k);
+                            any = true;
+                        }
+                    }
+                    if !any {
+                        break;
+                    }
+                }
+                if let Some(k) = seen.iter().position(|c| *c > 1) {
+                    fail = Some(format!("input=[{}] detail=[message {} was forwarded {} times]", desc, k, seen[k]));
+                    break 'outer;
+                }
+                if let Some(k) = seen.iter().position(|c| *c == 0) {
+                    fail = Some(format!("input=[{}] detail=[message {} was never forwarded although every member kept reading until the broker was idle]", desc, k));
+                    break 'outer;
+                }
+                if per_member.iter().any(|v| v.windows(2).any(|w| w[0] >= w[1])) {
+                    fail = Some(format!("input=[{}] detail=[a member saw its share out of acceptance order]", desc));
+                    break 'outer;
+                }
+            }
+        }
+    }
+    report(name, "C17", "3 strategies x 1..2 members x backlogs 150,199,200,201,250,450 published while no member reads", cases, fail);
+}
+
 /// C17: membership changes never lose or duplicate messages — a member that repeated its group subscription and then
 /// leaves, and a member that joins while the group has an unforwarded backlog
 // @native props=C17 tier=quick fn=SharedGroup::{add_client,remove_client}+Router::{prepare_filter,handle_disconnection,forward_device_data}
